@@ -11,28 +11,45 @@ so every invocation has a predicted result; the harness additionally repeats eve
 def fmt(v):
     if isinstance(v, list):
         return "[" + ", ".join(fmt(x) for x in v) + "]"
+    if v is None:
+        return "nil"
+    if isinstance(v, str):
+        return '"%s"' % v
     return str(v)
+
+
+def pads(k, c):
+    """k extra locals p0.. (p0 == c) at the head of a function body: more than 8 locals move the frame's locals to the heap"""
+    return "".join("p%d := %d; " % (i, c + i) for i in range(k))
+
+
+WIDE = [9, 10, 12, 17]
 
 
 class Obj:
     """one code object: how it is defined, how it is called, what a call does"""
 
-    def __init__(self, name, kind, g, c, rng):
+    def __init__(self, name, kind, g, c, rng, gl=None):
         self.name, self.kind, self.g, self.c = name, kind, g, c
         self.n = 0              # private cell of counter closures
         self.depth = 1 + rng.below(3)
         self.cl = None          # (global name, args) when the host can Call it
+        self.rng = rng
+        self.pad = rng.choice([0, 0, 0, 1, 3, 7, 8, 9, 12])     # extra locals of the outermost function
         G = "g%d" % g
+        P = pads(self.pad, c)
+        h = "h_" + name         # the global that holds a handle made by an earlier invocation
+        self.h = h
         read = "return %s + %d" % (G, c)
         write = "%s = %s + %d; return %s" % (G, G, c, G)
         n = name
         k = kind
         if k == "top_r":
-            self.defs = "func %s() { %s }" % (n, read)
+            self.defs = "func %s() { %s%s }" % (n, P, read)
             self.callx = "%s()" % n
             self.cl = (n, [])
         elif k == "top_w":
-            self.defs = "func %s() { %s }" % (n, write)
+            self.defs = "func %s() { %s%s }" % (n, P, write)
             self.callx = "%s()" % n
             self.cl = (n, [])
         elif k in ("fac_r", "fac_w"):
@@ -45,14 +62,14 @@ class Obj:
             self.cl = (n, [])
         elif k == "fresh_r":
             # the product is made and called in the same invocation; its code was loaded by an earlier one
-            self.defs = "func mk_%s() { return func() { %s } }" % (n, read)
+            self.defs = "func mk_%s() { %sreturn func() { %s } }" % (n, P, read)
             self.callx = "mk_%s()()" % n
         elif k == "cap_r":
             self.defs = "func mk_%s(k) { return func() { return %s + k } }\n%s := mk_%s(%d)" % (n, G, n, n, c)
             self.callx = "%s()" % n
             self.cl = (n, [])
         elif k == "cnt_w":
-            self.defs = ("func mk_%s() { n := 0; return func() { n = n + 1; %s = %s + n; return %s } }\n%s := mk_%s()" % (n, G, G, G, n, n))
+            self.defs = ("func mk_%s() { %sn := 0; return func() { n = n + 1; %s = %s + n; return %s } }\n%s := mk_%s()" % (n, P, G, G, G, n, n))
             self.callx = "%s()" % n
             self.cl = (n, [])
         elif k == "cb_r":
@@ -88,14 +105,145 @@ class Obj:
             self.defs = "func %s() { return try(func() { %s = %s + %d; return [1][5] }, func(e) { return %s }) }" % (n, G, G, c, G)
             self.callx = "%s()" % n
             self.cl = (n, [])
+        # ---- frames of different sizes in the same slot: wide functions, closure factories called at use time
+        elif k == "wide_r":
+            self.pad = rng.choice(WIDE)
+            self.defs = "func %s() { %sreturn %s + p0 }" % (n, pads(self.pad, c), G)
+            self.callx = "%s()" % n
+            self.cl = (n, [])
+        elif k == "wide_cl":
+            self.pad = rng.choice(WIDE)
+            self.defs = "func %s() { %sn := p0; f := func() { n = n + 1; return n }; f(); return n + %s }" % (n, pads(self.pad, c), G)
+            self.callx = "%s()" % n
+            self.cl = (n, [])
+        elif k == "wide_e":
+            self.pad = rng.choice(WIDE)
+            self.defs = ("func x_%s() { %s%s = %s + p0; return [1][p1] }\nfunc %s() { return try(func() { return x_%s() }, func(e) { return 0 - %d }) }"
+                         % (n, pads(self.pad, c), G, G, n, n, c))
+            self.callx = "%s()" % n
+            self.cl = (n, [])
+        elif k == "freshcnt":
+            # a factory with few (or many) locals, called when it is used: its cells are made in a frame slot that other functions used
+            self.defs = "func mk_%s(k) { %sn := k; return func() { n = n + 1; return n + %s } }" % (n, P, G)
+            self.callx = "mk_%s(%d)()" % (n, c)
+            self.hold = ("mk_%s" % n, [c])      # the host may Call the factory and keep the product
+        # ---- handles made by an earlier invocation (under that invocation's context) and used by later ones
+        elif k in ("thr_r", "thr_w"):
+            if k == "thr_w":
+                gl[g] += c
+                self.v = gl[g]
+                body = "%s = %s + %d; return %s" % (G, G, c, G)
+                form = rng.below(2)
+            else:
+                self.v = gl[g] + c
+                body = read
+                form = rng.below(3)
+            if form == 0:
+                mk = "%s := spawn(func() { %s%s })" % (h, P, body)
+            elif form == 1:
+                mk = "func tf_%s() { %s%s }\n%s := tf_%s.spawn()" % (n, P, body, h, n)
+            else:
+                mk = "%s := spawn(func(a) { %sreturn %s + a }, %d)" % (h, P, G, c)
+            self.defs = "%s\n%s.wait()\nfunc w_%s() { return %s.wait() }" % (mk, h, n, h)
+            self.callx = "%s.wait()" % h
+            self.cl = ("w_%s" % n, [])
+        elif k == "thr_e":
+            how = rng.choice(["[1][%d]" % (c + 1), "error(\"boom\")", "nil()"])
+            self.defs = ("%s := spawn(func() { %sreturn %s })\ntry(func() { %s.wait() }, 0)\n"
+                         "func w_%s() { return try(func() { return %s.wait() }, func(e) { return 0 - %d }) }" % (h, P, how, h, n, h, c))
+            self.callx = "try(func() { return %s.wait() }, func(e) { return 0 - %d })" % (h, c)
+            self.cl = ("w_%s" % n, [])
+        elif k == "thr_fn":
+            # a closure made on a thread (a clone of the VM) and handed back through wait()
+            self.n = c
+            self.defs = "%s := spawn(func() { %sn := %d; return func() { n = n + 1; return n + %s } }).wait()" % (h, P, c, G)
+            self.callx = "%s()" % h
+            self.cl = (h, [])
+        elif k in ("chan_q", "chan_t"):
+            self.cap = 3 + rng.below(3)
+            self.q = [c, c + 1]
+            self.nextv = 100 * (c + 1)
+            if k == "chan_q":
+                fill = "%s <- %d\n%s <- %d" % (h, c, h, c + 1)
+            else:
+                fill = "spawn(func() { %s <- %d; %s <- %d }).wait()" % (h, c, h, c + 1)
+            self.defs = "%s := chan(%d)\n%s\nfunc w_%s(v) { %s <- v; return <-%s }" % (h, self.cap, fill, n, h, h)
+        elif k in ("iter_l", "iter_i", "iter_s", "iter_m"):
+            cnt = 2 + rng.below(5)
+            if k == "iter_l":
+                self.seq = [c * 10 + i for i in range(cnt)]
+                lit = "[" + ", ".join(str(x) for x in self.seq) + "]"
+            elif k == "iter_i":
+                self.seq = list(range(cnt))
+                lit = str(cnt)
+            elif k == "iter_s":
+                self.seq = list("abcdefg"[:cnt])
+                lit = '"%s"' % "abcdefg"[:cnt]
+            else:
+                self.seq = ["k%d" % i for i in range(cnt)]
+                lit = "{" + ", ".join('"k%d": %d' % (i, i) for i in reversed(range(cnt))) + "}"
+            self.pos = 0
+            self.defs = "%s := iter(%s)" % (h, lit)
+            if rng.chance(1, 2):
+                self.defs += "\n%s.next()" % h
+                self.pos = 1
+            self.defs += "\nfunc w_%s() { return %s.next() }" % (n, h)
+            self.callx = "%s.next()" % h
+            self.cl = ("w_%s" % n, [])
+        elif k == "bound":
+            self.n = 1
+            self.defs = "l_%s := [%d]\n%s := l_%s.append\nfunc w_%s() { %s(7); return len(l_%s) }" % (n, c, h, n, n, h, n)
+            self.callx = "func() { %s(7); return len(l_%s) }()" % (h, n)
+            self.cl = ("w_%s" % n, [])
         else:
             raise ValueError(k)
+
+    def use(self, gl):
+        """one use from script code: (expression, predicted value); updates the account"""
+        if self.kind in ("chan_q", "chan_t"):
+            v = self.nextv
+            self.nextv += 1
+            return "func() { %s <- %d; return <-%s }()" % (self.h, v, self.h), self._chan(v)
+        return self.callx, self.call(gl)
+
+    def host_use(self, gl):
+        """one use by the host's Call: (function name, arguments, predicted value)"""
+        if self.kind in ("chan_q", "chan_t"):
+            v = self.nextv
+            self.nextv += 1
+            return "w_" + self.name, [v], self._chan(v)
+        return self.cl[0], self.cl[1], self.call(gl)
+
+    def hostable(self):
+        return self.cl is not None or self.kind in ("chan_q", "chan_t")
+
+    def _chan(self, v):
+        self.q.append(v)
+        return self.q.pop(0)
 
     def call(self, gl):
         """effect on the globals, returns the value"""
         g, c, k = self.g, self.c, self.kind
-        if k in ("top_r", "fac_r", "fresh_r", "cap_r", "map_r", "list_r", "inner_r", "rec_r"):
+        if k in ("top_r", "fac_r", "fresh_r", "cap_r", "map_r", "list_r", "inner_r", "rec_r", "wide_r"):
             return gl[g] + c
+        if k in ("wide_cl", "freshcnt"):
+            return gl[g] + c + 1
+        if k == "wide_e":
+            gl[g] += c
+            return -c
+        if k in ("thr_r", "thr_w"):
+            return self.v
+        if k == "thr_e":
+            return -c
+        if k == "thr_fn":
+            self.n += 1
+            return self.n + gl[g]
+        if k in ("iter_l", "iter_i", "iter_s", "iter_m"):
+            self.pos += 1
+            return self.seq[self.pos - 1] if self.pos <= len(self.seq) else None
+        if k == "bound":
+            self.n += 1
+            return self.n
         if k in ("top_w", "fac_w", "mapf_w", "try_w"):
             gl[g] += c
             return gl[g]
@@ -116,62 +264,98 @@ class Obj:
 
 
 KINDS = ["top_r", "top_w", "fac_r", "fac_w", "fresh_r", "cap_r", "cnt_w", "cb_r", "each_w", "defer_w", "map_r", "mapf_w", "list_r",
-         "inner_r", "rec_r", "try_w"]
+         "inner_r", "rec_r", "try_w",
+         "wide_r", "wide_cl", "wide_e", "freshcnt",
+         "thr_r", "thr_w", "thr_e", "thr_fn", "chan_q", "chan_t", "iter_l", "iter_i", "iter_s", "iter_m", "bound"]
+HANDLES = ("thr_r", "thr_w", "thr_e", "thr_fn", "chan_q", "chan_t", "iter_l", "iter_i", "iter_s", "iter_m", "bound")
 LIB = "func rec_forever(n) { return rec_forever(n + 1) }"
 
 
 def gen_history(hid, rng):
-    """returns (history for the harness, expected outcome per invocation, tags)"""
+    """returns (history for the harness, expected outcome per invocation, tags)
+
+    Every invocation has a context of its own.  The host cancels it right after the invocation returned (`cancel: "after"`),
+    when the whole history is over ("end"), or a LATER invocation cancels it from script code through the host builtin
+    `cancel_ctx(i)` just before it uses what invocation i left behind ("script"; cancelled at the end if no piece does)."""
     ng = 1 + rng.below(3)
     gl = {i: rng.below(9) for i in range(ng)}
     items = []
     expect = []
     tags = []
     objs = []
-    called_before = set()     # objects called by an earlier invocation (their code is loaded)
+    called_before = set()     # objects called / made by an earlier invocation (their code is loaded, their handles exist)
+    live = []                 # indices of invocations whose context a later piece may cancel
+    held = []                 # [register, object, its private counter]: factory products the host keeps
 
-    def wrap(o):
-        """a call of o as it appears in a piece"""
+    def wrap(o, x):
+        """a use x of o as it appears in a piece"""
         w = rng.below(10)
         if o.cl and w == 0:
-            return "spawn(%s).wait()" % o.cl[0] if not o.cl[1] else o.callx
+            return "spawn(%s).wait()" % o.cl[0] if not o.cl[1] else x
         if o.cl and w == 1 and not o.cl[1]:
             return "try(%s, -1)" % o.cl[0]
         if w == 2:
-            return "func() { return %s }()" % o.callx
-        return o.callx
+            return "func() { return %s }()" % x
+        if w == 3:
+            # one frame deeper, in a frame whose locals do not fit the frame's own storage
+            return "func() { %sreturn %s }()" % (pads(rng.choice(WIDE), 1), x)
+        return x
+
+    def use_tags(o):
+        if o in called_before:
+            tags.append("reuse:" + o.kind)
 
     def calls(k, now_called):
-        """k calls of defined objects as one list expression + its predicted value"""
+        """k uses of defined objects as one list expression + its predicted value"""
         xs, vs = [], []
         for _ in range(k):
             o = rng.choice(objs)
-            xs.append(wrap(o))
-            vs.append(o.call(gl))
+            x, v = o.use(gl)
+            xs.append(wrap(o, x))
+            vs.append(v)
             now_called.add(o)
-            if o in called_before:
-                tags.append("reuse:" + o.kind)
+            use_tags(o)
         return "[" + ", ".join(xs) + "]", vs
 
     def snapshot():
         return ",".join("g%d=%d" % (i, gl[i]) for i in sorted(gl))
 
+    def push(item, exp):
+        mode = rng.choice(["after", "after", "after", "end", "script"])
+        item["cancel"] = mode
+        if mode == "script":
+            live.append(len(items))
+        items.append(item)
+        expect.append(exp)
+
+    def stale_cancels(lines):
+        """script code cancels the contexts of earlier invocations before it goes on"""
+        if live and rng.chance(2, 3):
+            for i in list(live):
+                lines.append("cancel_ctx(%d)" % i)
+                live.remove(i)
+            tags.append("cancel-by-script")
+
     first = ["%s" % LIB] + ["g%d := %d" % (i, gl[i]) for i in range(ng)]
-    n = 2 + rng.below(6)
+    n = 2 + rng.below(7)
     nobj = 0
     for step in range(n):
         now_called = set()
         lines = []
         if step == 0:
             lines += first
-        c = rng.below(10) if step > 0 else 0
+        else:
+            stale_cancels(lines)
+        c = rng.below(12) if step > 0 else 0
         if c < 3 or not objs:
             # definitions (called at once or not: a literal nested in a function is loaded by its first call)
             for _ in range(1 + rng.below(3)):
-                o = Obj("o%d" % nobj, rng.choice(KINDS), rng.below(len(gl)), 1 + rng.below(7), rng)
+                o = Obj("o%d" % nobj, rng.choice(KINDS), rng.below(len(gl)), 1 + rng.below(7), rng, gl)
                 nobj += 1
                 objs.append(o)
                 lines.append(o.defs)
+                if o.kind in HANDLES:
+                    now_called.add(o)
             tags.append("def")
         if c in (3, 4):
             i = rng.below(len(gl))
@@ -188,40 +372,53 @@ def gen_history(hid, rng):
             gl[i] = rng.below(9)
             lines.append("g%d := %d" % (i, gl[i]))
             tags.append("decl")
-        if c == 6 and objs and any(o.cl for o in objs):
+        if c == 6 and objs and any(o.hostable() for o in objs):
             # the host calls a function by name
-            o = rng.choice([o for o in objs if o.cl])
-            v = o.call(gl)
+            o = rng.choice([o for o in objs if o.hostable()])
+            fn, args, v = o.host_use(gl)
             if o in called_before:
                 tags.append("reuse-call:" + o.kind)
-            items.append({"api": "CL", "fn": o.cl[0], "args": o.cl[1], "eff": "%s(%s)" % (o.cl[0], ", ".join(str(a) for a in o.cl[1]))})
-            expect.append(("V " + fmt(v), snapshot()))
+            push({"api": "CL", "fn": fn, "args": args, "eff": "%s(%s)" % (fn, ", ".join(str(a) for a in args))},
+                 ("V " + fmt(v), snapshot()))
             called_before.add(o)
             tags.append("call")
+            continue
+        if c >= 10 and (held or any(hasattr(o, "hold") for o in objs)):
+            # the host Calls a closure factory and keeps the product, or Calls a product it kept
+            facs = [o for o in objs if hasattr(o, "hold")]
+            if held and (not facs or rng.chance(2, 3)):
+                hh = rng.choice(held)
+                hh[2] += 1
+                push({"api": "CH", "reg": hh[0], "eff": "%s()" % hh[0]}, ("V " + fmt(hh[2] + gl[hh[1].g]), snapshot()))
+                tags.append("host-held-call")
+            else:
+                o = rng.choice(facs)
+                reg = "r%d" % len(held)
+                held.append([reg, o, o.hold[1][0]])
+                push({"api": "CL", "fn": o.hold[0], "args": o.hold[1], "hold": reg,
+                      "eff": "%s := %s(%s)" % (reg, o.hold[0], ", ".join(str(a) for a in o.hold[1]))}, (None, snapshot()))
+                tags.append("host-held-make")
             continue
         if c == 7 and objs:
             # a piece that fails half way: what it did before the failure stays
             i = rng.below(len(gl))
             v = rng.below(50)
             o = rng.choice(objs)
-            o.call(gl)
+            x, _ = o.use(gl)
             gl[i] = v
             how = rng.choice(["[1][5]", "rec_forever(0)", "nil()", "[1, 2, {}[\"k\"]]", "error(\"boom\")"])
-            eff = "\n".join(lines + ["%s" % o.callx, "g%d = %d" % (i, v)])
-            lines += ["%s" % o.callx, "g%d = %d" % (i, v), how, "g%d = 77" % i]
+            eff = "\n".join(lines + ["%s" % x, "g%d = %d" % (i, v)])
+            lines += ["%s" % x, "g%d = %d" % (i, v), how, "g%d = 77" % i]
             now_called.add(o)
-            if o in called_before:
-                tags.append("reuse:" + o.kind)
-            items.append({"api": "RN", "src": "\n".join(lines), "eff": eff})
-            expect.append(("E", snapshot()))
+            use_tags(o)
+            push({"api": "RN", "src": "\n".join(lines), "eff": eff}, ("E", snapshot()))
             called_before |= now_called
             tags.append("fail")
             continue
         x, vs = calls(1 + rng.below(4), now_called)
         lines.append(x)
         src = "\n".join(lines)
-        items.append({"api": "RN", "src": src, "eff": src})
-        expect.append(("V " + fmt(vs), snapshot()))
+        push({"api": "RN", "src": src, "eff": src}, ("V " + fmt(vs), snapshot()))
         called_before |= now_called
     watch = ["g%d" % i for i in sorted(gl)]
     return {"id": hid, "mode": "script", "watch": watch, "items": items}, expect, tags
